@@ -216,7 +216,7 @@ def jobs(tier):
     quick = tier == "quick"
     lim = {"time_limit": 100 if quick else 1500}
     span = 12 if quick else 8
-    names = ["get", "post-cl", "post-chunked", "chunked-ext-trailer", "pipeline", "head-cl", "two-te", "cl0",
+    names = ["get", "post-cl", "post-chunked", "chunked-ext-trailer", "pipeline", "head-cl", "two-te", "cl0", "close",
              "x-te-double", "x-te-cl", "x-cl-plus", "x-cl-dup", "x-sp-colon", "x-fold", "x-bare-lf",
              "x-chunk-size", "x-trailer-lf"] if quick else list(TEMPLATES)
     modes = [("replace", 1), ("insert", 1)] if quick else [("replace", 1), ("insert", 1), ("delete", 1),
